@@ -489,10 +489,17 @@ fn main() {
                 nums.push(format!("{}{}", d - 1 + 0, "9".repeat(k)).trim_start_matches('0').to_string());
             }
         }
+        // small values written with up to 30 leading zeros
+        for z in [17usize, 18, 19, 20, 23, 30] {
+            for v in ["0", "1", "2", "7", "10", "123456789"] {
+                nums.push(format!("{}{}", "0".repeat(z), v));
+            }
+        }
         nums.retain(|n| !n.is_empty());
         nums.sort();
         nums.dedup();
-        let big = |n: &str| n.len() > 19 || (n.len() == 19 && n > "9223372036854775807");
+        let strip = |n: &str| -> String { let t = n.trim_start_matches('0'); if t.is_empty() { "0".to_string() } else { t.to_string() } };
+        let big = |n: &str| { let n = strip(n); n.len() > 19 || (n.len() == 19 && n.as_str() > "9223372036854775807") };
         let p = Pattern::new("p-*").unwrap_or_else(|e| run.fault(&format!("p-*: {}", e)));
         run.bound(format!("large numbers: {} numbers of 17..26 digits (d x 10^k and neighbours), all pairs in which at most one exceeds i64::MAX, as a version component, both argument orders", nums.len()));
         let idx: Vec<usize> = (0..nums.len()).collect();
@@ -502,12 +509,14 @@ fn main() {
                 if big(x) && big(y) {
                     continue;
                 }
-                let numeric = x.len().cmp(&y.len()).then_with(|| x.cmp(y));
+                let (sx, sy) = (strip(x), strip(y));
+                let numeric = sx.len().cmp(&sy.len()).then_with(|| sx.cmp(&sy));
                 let (a, b) = (format!("p-1.{}", x), format!("p-1.{}", y));
                 let want = match numeric {
                     Ordering::Greater => a.as_str(),
                     Ordering::Less => b.as_str(),
-                    Ordering::Equal => a.as_str(),
+                    // equal values in different spellings: the byte-wise smaller name
+                    Ordering::Equal => if a.as_bytes() <= b.as_bytes() { a.as_str() } else { b.as_str() },
                 };
                 t.states += 1;
                 t.transitions += 2;
